@@ -16,6 +16,10 @@ from pyvc import vc
 from pyvc.vc import Obligation
 
 
+def type_label(t: Dict) -> str:
+    return t["name"] if t["kind"] == "reference" else "literal{" + ",".join(p["name"] for p in t["value"]["properties"]) + "}"
+
+
 def eligible_edits(mm: MetaModel, d, p) -> List[Tuple[str, Any]]:
     """(edit kind, replacement) for property p; 'remove' has no replacement."""
     t = p["type"]
@@ -146,6 +150,62 @@ def main(argv: List[str]) -> int:
                             {"input": j, "edit": kind, "replacement": repl, "observed": _safe_repr(conv, obj), "pass": pas, "replay": f"converter.structure(<input>, lsprotocol.types.{d.pyname})"},
                             True,
                         )
+    # ---- the same single edits applied to an object that is reached THROUGH a union-typed property of the container (what gets checked
+    #      there is decided by a hand-written hook / the default disambiguator, not by the nested class alone)
+    from lib.sweeps import union_nested_sites
+
+    conv = live.converter
+    nested = 0
+    seen_nested = set()
+    for d in decls:
+        cls = getattr(live.types, d.pyname, None)
+        if cls is None:
+            continue
+        base = None
+        for p in d.props:
+            if p.get("_envelope"):
+                continue
+            for alt_t, nprops, place in union_nested_sites(mm, p["type"]):
+                if base is None:
+                    base = mm.witness_props(d.props, False, 1)
+                for mx in (False, True):
+                    try:
+                        inner = mm.witness(alt_t, mx, 2)
+                    except Exception:  # noqa
+                        continue
+                    if not isinstance(inner, dict):
+                        continue
+                    for q in nprops:
+                        for kind, repl in eligible_edits(mm, d, q):
+                            e = dict(inner)
+                            if kind == "remove":
+                                if q["name"] not in e:
+                                    continue
+                                del e[q["name"]]
+                            else:
+                                e[q["name"]] = repl
+                            val = place(e)
+                            if mm.valid(p["type"], val, False):
+                                continue  # the edited object is (loosely) valid as another alternative: accepting it is right
+                            j = dict(base)
+                            j[p["name"]] = val
+                            nested += 1
+                            try:
+                                obj = conv.structure(j, cls)
+                            except Exception:
+                                continue
+                            a = next((a_.name for a_ in live.attrs.fields(cls) if (live.wire_name(cls, a_.name) or a_.name) == p["name"]), p["name"])
+                            key = f"reject:{d.pyname}.{a}>{type_label(alt_t)}.{q['name']}:{kind}"
+                            if key in seen_nested:
+                                continue
+                            seen_nested.add(key)
+                            run.violation(
+                                key,
+                                f"{d.pyname}.{a}: an invalid edit ({kind}: {repl!r}) of {q['name']} inside the {type_label(alt_t)} alternative is accepted instead of raising",
+                                {"input": j, "edit": kind, "replacement": repl, "nested_property": q["name"], "observed": _safe_repr(conv, obj), "replay": f"converter.structure(<input>, lsprotocol.types.{d.pyname})"},
+                                True,
+                            )
+    sweeps += nested
     # ---- frame condition: union hooks must not touch state that switches validation off (they may call
     #      converter.structure and pure builtins only); a violation is replayed as a poisoning sequence
     from lib.unions import UnionAnalysis, site_inputs
